@@ -381,8 +381,13 @@ def oracle(run, cases, impl, extra, pats):
         cls = classify_invalid([it for _, it in bad], pats)
         for (i, it), w, fids in zip(bad, why, cls):
             c = cases[i]
-            rep = {"case": {k: c[k] for k in ("op", "cid", "data", "allow", "interop", "py") if k in c}, "emitted": it[1],
+            rep = {"case": {k: c[k] for k in ("op", "cid", "data", "allow", "interop", "py", "seq") if k in c}, "emitted": it[1],
                    "class": it[0], "validator": w, "meta": c.get("meta")}
+            if c.get("seq") is not None:
+                # the calls that ran before it in the same process are part of the input
+                sq = [x for x in cases if x.get("seq") == c["seq"]]
+                rep["sequence"] = [{k: x[k] for k in ("op", "cid", "data", "allow", "interop", "seq") if k in x} for x in sq]
+                rep["step"] = c["meta"].get("step")
             what = "%s %s strict success emits JSON the specification refuses (%s): %s" % (
                 c["op"], it[0], w.strip(), json.dumps(it[1])[:300])
             if fids:
@@ -430,7 +435,7 @@ def check(run):
     impl, extra = sc.run_impl_cases(cases)
     hist = {}
     for c, r in zip(cases, impl):
-        run.count({k: c[k] for k in ("op", "cid", "data", "allow", "interop", "py") if k in c}, nontrivial=not trivial(c, r))
+        run.count({k: c[k] for k in ("op", "cid", "data", "allow", "interop", "py", "seq") if k in c}, nontrivial=not trivial(c, r))
         key = "%s/%s/%s" % (c["meta"]["origin"], c["meta"].get("ckind", "-").split(":")[0].split("|")[0], r.split(" ")[0] if not r.startswith("ERR") else r[4:])
         hist[key] = hist.get(key, 0) + 1
     run.coverage["distribution"] = dict(sorted(hist.items()))
@@ -474,7 +479,13 @@ def check(run):
 def replay(payload):
     r = payload["replay"]
     c = r["case"]
-    lines, extra = sc.run_impl_cases([dict(c, meta={})])
+    if r.get("sequence"):
+        ls, ex = sc.run_impl_cases([dict(x, meta={}) for x in r["sequence"]])
+        for x, l in zip(r["sequence"], ls):
+            print("  in sequence: %s %s -> %s" % (x["op"], x.get("cid"), l[:100]))
+        lines, extra = [ls[r.get("step", len(ls) - 1)]], [ex[r.get("step", len(ls) - 1)]]
+    else:
+        lines, extra = sc.run_impl_cases([dict(c, meta={})])
     print("replay %s %s allow=%s: %s" % (c["op"], c.get("cid"), c.get("allow"), lines[0][:400]))
     if c.get("allow") or extra[0] is None or not lines[0].startswith("OK "):
         print("no violation on this input (not a strict success)")
